@@ -6,5 +6,9 @@ CONSTANTS
   MaxReload = 2
   MaxUse = 2
   Mtls = {FALSE}
+  RMaxConn = 2
+  RMaxReload = 1
+  RMaxUse = 1
+  RealMtls = {}
 INVARIANTS TypeOK Undisturbed Fresh
 CHECK_DEADLOCK FALSE
